@@ -1,5 +1,6 @@
 """C18 — tenant quotas under every interleaving: check and count in one critical section,
 release on failure, recovery sets usage."""
+import re as _re
 from ..cfg import Body
 from ..report import where
 from .. import orderdom as od
@@ -13,8 +14,16 @@ COUNT_FIELDS = ("ResourceUsage.node_count", "ResourceUsage.edge_count")
 def analyse_tm(F, path):
     """Summary of a TenantManager method: does it check the quota, does it add to / assign a usage
     counter, and do both happen under one `usage` write guard."""
-    r = F.fns[path]
-    b = Body(F.mir(path), r)
+    from .. import inline as inl_
+    b = inl_.body(F, path, inl_.private_helpers(F, path))      # `check_then_count(entry, ..)` and the like are read in place
+    r = b.fn
+    # accessor methods handing out `&mut` to a usage counter (`counter_mut(resource) -> Option<&mut usize>`)
+    counter_refs = set()
+    for p_, r_ in F.fns.items():
+        if p_.startswith("samyama::persistence::tenant::") and _re.search(r"&('\w+ )?mut usize", r_["sig"].rsplit("->", 1)[-1]) and "{closure" not in p_:
+            m_ = F.mir(p_)
+            if m_ and any(st[1][0] == "ref" and st[1][1] == 1 and any(isinstance(x, str) and any(x.endswith(cf) for cf in COUNT_FIELDS) for x in st[1][2][1]) for blk in m_["blocks"] for st in blk["s"]):
+                counter_refs.add(p_)
     acq = []
     for c in b.calls():
         if c.path.rsplit("::", 1)[-1] == "write" and "RwLock" in c.path:
@@ -26,7 +35,11 @@ def analyse_tm(F, path):
     adds, sets = [], []
     for i, j, pl, rv, line, exp in b.stmts():
         fl = [p[2:] for p in pl[1] if p.startswith("f:")]
-        if fl and any(fl[-1].endswith(cf) for cf in COUNT_FIELDS):
+        via_ref = False
+        if not fl and pl[1] == ["*"] and counter_refs:
+            og_ = b.origins(pl[0], through_calls=lambda cc: [0] if cc.path.rsplit("::", 1)[-1] in ("branch", "unwrap", "expect", "as_mut", "as_deref_mut") else None)
+            via_ref = any(o[0] == "call" and o[1].path in counter_refs for o in og_)
+        if via_ref or (fl and any(fl[-1].endswith(cf) for cf in COUNT_FIELDS)):
             og = b.origins(pl[0]) if False else None
             # rvalue derived from the same field (+=) or not (=)
             e = od.expr_of(b, rv[1]) if rv[0] == "use" else None
